@@ -10,6 +10,7 @@
   the real code.
 -/
 import Edn.Proofs.ReaderBasic
+import Edn.Proofs.ScanTb
 
 namespace Edn.Properties.C12
 open Edn.Model Edn.Proofs
@@ -56,5 +57,52 @@ theorem blank_prefix (ctx : Ctx) (f d : Nat) (dm : Bool) (k : Nat) (s : Bytes) (
     (17 blanks, a comment, then a 20-digit run) -/
 example : skipWs (List.replicate 17 0x20 ++ [0x3B, 0x61, 0x0A, 0x31]) = [0x31] := by decide +kernel
 example : scanDigits (List.replicate 20 0x31 ++ [0x20]) = [0x20] := by decide +kernel
+
+/-- text-block lines (experimental extension): the line reader with its two vector pre-scans —
+    `tbSkipBlankBlocks` for the indentation and `tbSkipBlocks` = `simd_scan_line_content`
+    (string.c, SSE variant: whole 16-byte blocks while at least 16 bytes remain, stop at the
+    first block holding a line feed, a double quote or a backslash and return the position of
+    that lane), run once per line before the scalar loop — returns exactly what the
+    byte-at-a-time `tbLine` of the reader returns, for every input: every indentation, line
+    length and position of the special bytes.  (Edn.Model.ScanTb, Edn.Proofs.ScanTb) -/
+theorem text_block_line_scanner (s : Bytes) : tbLineSimd s = tbLine s := tbLineSimd_eq s
+
+/-- the pre-scan alone: it skips only bytes that are no line feed, quote or backslash, and with
+    the reader's fuel it stops only where the C loop does -/
+theorem text_block_block_scan (s : Bytes) :
+    (∃ pre, s = pre ++ tbSkipBlocks (s.length + 1) s ∧
+      ∀ c ∈ pre, c ≠ 0x0A ∧ c ≠ 0x22 ∧ c ≠ 0x5C) ∧
+    ((tbSkipBlocks (s.length + 1) s).length < 16 ∨
+      ∃ d t, tbSkipBlocks (s.length + 1) s = d :: t ∧ (d = 0x0A ∨ d = 0x22 ∨ d = 0x5C)) := by
+  refine ⟨?_, ?_⟩
+  · obtain ⟨pre, hp, ha⟩ := tbSkipBlocks_spec (s.length + 1) s
+    refine ⟨pre, hp, fun c hc => tbLane_false ?_⟩
+    simpa using List.all_eq_true.mp ha c hc
+  · rcases tbSkipBlocks_stop (s.length + 1) s (Nat.lt_succ_self _) with h | ⟨d, t, h, hd⟩
+    · exact .inl h
+    · refine .inr ⟨d, t, h, ?_⟩
+      rw [tbLane_spec] at hd
+      simpa [or_assoc] using hd
+
+/-- non-vacuity: a 41-byte line (two blanks, then 38 content bytes) whose `\"""` escape starts
+    in lane 15 of the second block and straddles the block boundary: the pre-scan skips one
+    clean block, stops on the backslash (31 bytes into the content), and both readers return
+    the same line with `needsEsc` set -/
+def tbSample : Bytes :=
+  [0x20, 0x20] ++ List.replicate 16 0x61 ++ List.replicate 15 0x62 ++
+    [0x5C, 0x22, 0x22, 0x22, 0x63, 0x64, 0x0A, 0x7A]
+
+example : tbSkipBlocks 39 (tbSample.drop 2) = tbSample.drop 33 ∧
+    (tbSample.drop 33).head? = some 0x5C := by decide +kernel
+example : tbLineSimd tbSample =
+    some ({ indent := [0x20, 0x20],
+            content := List.replicate 16 0x61 ++ List.replicate 15 0x62 ++
+              [0x5C, 0x22, 0x22, 0x22, 0x63, 0x64],
+            hasNewline := true, needsEsc := true, terminal := false }, [0x7A]) := by decide +kernel
+example : tbLineSimd tbSample = tbLine tbSample := by decide +kernel
+/-- both block loops taken: 17 blanks of indentation, 20 plain bytes, the closing delimiter -/
+example : tbLineSimd (List.replicate 17 0x20 ++ List.replicate 20 0x61 ++ [0x22, 0x22, 0x22, 0x7A]) =
+    some ({ indent := List.replicate 17 0x20, content := List.replicate 20 0x61,
+            hasNewline := false, needsEsc := false, terminal := true }, [0x7A]) := by decide +kernel
 
 end Edn.Properties.C12
